@@ -467,6 +467,88 @@ def rule_r6(F, rep):
                               % (SMALL_ARRAY[hname], ln, "calls" if True in used else "does not call", sorted(used)), fn.loc)
 
 
+def _opt_variant(body, defs, op, depth=0):
+    """'Some' / 'None' / '?' for an Option operand built in this body"""
+    if op["k"] == "const":
+        return "None" if "None" in str(op.get("s", "")) else "?"
+    if op["p"] or depth > 5:
+        return "?"
+    out = set()
+    for rv in defs.get(op["l"], []):
+        if rv["k"] == "agg" and rv["ak"] == "adt" and rv.get("adt") == "core::option::Option":
+            out.add(rv["v"])
+        elif rv["k"] == "use" and rv["x"]["k"] in ("copy", "move", "const"):
+            out.add(_opt_variant(body, defs, rv["x"], depth + 1))
+        else:
+            out.add("?")
+    return next(iter(out)) if len(out) == 1 else "?"
+
+
+def rule_r9(F, rep):
+    from . import cfg as cfgm
+    R = rep.rule("C04.R9", "the fields of an object whose layer carries the environment share it: a handler that builds an "
+                 "ObjectLayer with `base_env: Some(..)` (an object literal) schedules every one of that object's fields with "
+                 "`base_env: None`. A field given its own base environment is bound in a private copy of the layer environment "
+                 "(find_object_field_thunk builds one per such field, as it must for comprehension objects), so the object's "
+                 "locals are allocated and evaluated once per field instead of once per object")
+    LAYER = D + "ObjectLayer"
+    STATE = em.STATE
+    n = 0
+    for fn in F.fn_list:
+        if fn.crate.name != "rsjsonnet_lang":
+            continue
+        body = fn.body
+        layer_sites = []
+        field_sites = []
+        defs = {}
+        for bb, si, st in body.assigns():
+            if not st["p"]["p"]:
+                defs.setdefault(st["p"]["l"], []).append(st["rv"])
+        for bb, si, st in body.assigns():
+            rv = st["rv"]
+            if rv["k"] != "agg" or rv["ak"] != "adt":
+                continue
+            if rv.get("adt") == LAYER:
+                names = [f["n"] for f in F.adt(LAYER)["variants"][0]["fields"]]
+                if "base_env" not in names:
+                    raise AnchorMissing("ObjectLayer.base_env")
+                layer_sites.append((bb, _opt_variant(body, defs, rv["xs"][names.index("base_env")]), body.span(st["sp"])))
+            elif rv.get("adt") == STATE and rv["v"] in ("ObjectDynField", "ObjectFixField"):
+                v = next(x for x in F.adt(STATE)["variants"] if x["n"] == rv["v"])
+                names = [f["n"] for f in v["fields"]]
+                if "base_env" not in names:
+                    raise AnchorMissing("State::%s.base_env" % rv["v"])
+                field_sites.append((bb, rv["v"], _opt_variant(body, defs, rv["xs"][names.index("base_env")]), body.span(st["sp"])))
+        if not layer_sites or not field_sites:
+            continue
+        rep.fn(fn)
+        succ = body.succ_map()
+        blocked = set()
+        if fn.q == "<%s>::run" % em.EVAL:
+            # one handler = one arm: do not follow the loop back to the dispatch
+            best = None
+            for i, b in enumerate(body.blocks):
+                t = b["t"]
+                if t["k"] == "switch" and (best is None or len(t["arms"]) > len(body.blocks[best]["t"]["arms"])):
+                    best = i
+            blocked = {best}
+        for lbb, lv, lsite in layer_sites:
+            reach = cfgm.reachable(succ, [lbb], blocked_nodes=blocked)
+            for fbb, which, fv, fsite in field_sites:
+                if fbb not in reach:
+                    continue
+                n += 1
+                ok = not (lv == "Some" and fv != "None")
+                rep.ob(R, "%s|%s@%s" % (fn.q.rsplit("::", 1)[-1], which, fsite.rsplit(":", 2)[-2]), ok,
+                       {"handler": fn.q, "layer base_env": lv, "field state": which, "field base_env": fv})
+                if not ok:
+                    rep.violation(R, "%s|field-base-env|%s" % (fn.q, which), "%s builds an object whose layer carries the environment "
+                                  "(base_env: Some) and schedules its field through State::%s with base_env %s: the field is bound in "
+                                  "a private copy of the layer environment, so object locals are evaluated once per such field"
+                                  % (fn.q.rsplit("::", 1)[-1], which, fv), fsite)
+    rep.floor(R, n, 3, "object constructions with scheduled fields")
+
+
 def run(F, rep, tier):
     rep.attempt(rule_r1, F, rep)
     rep.attempt(rule_r2, F, rep)
@@ -474,6 +556,7 @@ def run(F, rep, tier):
     rep.attempt(rule_r4, F, rep)
     rep.attempt(rule_r5, F, rep)
     rep.attempt(rule_r6, F, rep)
+    rep.attempt(rule_r9, F, rep)
     from . import c04_lit
     rep.attempt(c04_lit.rule, F, rep)
     rep.attempt(c04_lit.rule_strict_flag, F, rep)
